@@ -694,6 +694,17 @@ def install(I):
 
     M[id(pd.concat)] = concat
 
+    def series_ctor(I, data=None, index=None, dtype=None, name=None, **kw):
+        # pd.Series(scalar, index=obj.index): a constant series over the rows of `obj`
+        if isinstance(index, IndexVal) and (isinstance(data, (bool, int, float, str, Sym)) or data is None):
+            o = index.owner
+            kind = "bool" if isinstance(data, (bool, SBool)) else ("str" if isinstance(data, (str, SStr)) else "real")
+            s = SeriesVal(o.space, lambda i: data, (lambda i: z3.BoolVal(data is None)), o._sel, name, kind, dtype)
+            return s
+        raise Unsupported("pd.Series(...) construction other than a constant over an existing index")
+
+    M[id(pd.Series)] = series_ctor
+
     def isna(I, v):
         if isinstance(v, SeriesVal):
             return v.isna()
